@@ -142,6 +142,10 @@ func (r *Run) Nontrivial(sig string) {
 
 // Sample keeps up to max literal samples per run.
 func (r *Run) Sample(v any) {
+	// samples illustrate the workload; a huge one (cases with 100 KB attributes) is cut to its beginning
+	if b, err := json.Marshal(v); err == nil && len(b) > 4096 {
+		v = map[string]any{"sample_truncated_to_2000_of_bytes": len(b), "beginning": string(b[:2000])}
+	}
 	r.mu.Lock()
 	if len(r.samples) < 12 {
 		r.samples = append(r.samples, v)
